@@ -301,7 +301,7 @@ def check_C01(tier):
         # a third, large-magnitude argument tuple (arguments must reach main unchanged)
         al = list(args[n])
         if e["nargs"]:
-            r = rng_for("C01" + n)
+            r = rng_for("C01" + (n[:-5] if n.endswith("_twin") else n))   # a program and its twin get the same tuples
             al.append([r.choice([2147483648, -2147483649, 1311768467463790320, -9223372036854775807, 4294967296]) for _ in range(e["nargs"])])
         args[n] = al
         jobs.append((n, open(os.path.join(art, n + ".x86.asm")).read(), e["nargs"], al))
